@@ -20,6 +20,7 @@ GENERATORS = [
     ("Logging", "gen_logging"),
     ("Wiring", "gen_wiring"),
     ("UserMgr", "gen_usermgr"),
+    ("PortPool", "gen_portpool"),
 ]
 
 
